@@ -37,4 +37,6 @@ func Or(a, b bool) bool                 { intrinsic(); return false }
 func Implies(a, b bool) bool            { intrinsic(); return false }
 func DrbgStream(draws []uint64)             { intrinsic() }
 func ScalarBytes(label string) []byte        { intrinsic(); return nil }
+func AllowRandom()                          { intrinsic() }
+func AssumeHashScalars()                    { intrinsic() }
 func RegisterHarness(name string, f func()) {}
